@@ -942,3 +942,63 @@ def gen_ring_staggered(rng):
     rng.shuffle(order)
     maxstep = max(max(c["steps"]) for c in comps)
     return {"comps": permute(comps, order), "end": off + rng.choice([3, 5, 8]) * maxstep}
+
+
+def gen_lookahead(rng):
+    """Links that move a request FORWARD in time (DelayFixed with a negative delay = look-ahead offset), alone, chained
+    with an ordinary delay, and downstream of a pull-based relay: the driver must advance the source to the time that
+    will really be requested, which lies beyond the consumer's own next time."""
+    unit = rng.choice(UNITS)
+    ss = unit * rng.choice([1, 1, 2])
+    sc_ = ss * rng.choice([1, 2, 3, 5])
+    ahead = unit * rng.choice([1, 2, 3, 7])
+    comps = [{"kind": "T", "start": 0, "steps": [ss], "initpull": False, "nout": 1, "inputs": []}]
+    r = rng.random()
+    if r < 0.5:
+        chain = [["fixed", -ahead]]
+    elif r < 0.7:
+        chain = [["fixed", -ahead], ["fixed", unit]]
+    elif r < 0.85:
+        chain = [["pass"], ["fixed", -ahead]]
+    else:
+        chain = [["fixed", unit * 2], ["fixed", -ahead]]
+    if rng.random() < 0.3:
+        comps.append({"kind": "P", "nout": 1, "inputs": [{"src": [0, 0], "chain": []}]})
+        src = 1
+    else:
+        src = 0
+    # (no connect-time pull through a look-ahead link: it would ask for data beyond the initial publication)
+    comps.append({"kind": "T", "start": 0, "steps": [sc_], "initpull": False, "nout": 0,
+                  "inputs": [{"src": [src, 0], "chain": chain}]})
+    if rng.random() < 0.4:
+        comps.append({"kind": "T", "start": 0, "steps": gen_steps(rng, unit), "initpull": False, "nout": 0,
+                      "inputs": [{"src": [0, 0], "chain": [["pass"]] if rng.random() < 0.5 else []}]})
+    order = list(range(len(comps)))
+    rng.shuffle(order)
+    return {"comps": permute(comps, order), "end": sc_ * rng.choice([2, 3, 5])}
+
+
+def gen_ring_mixed(rng):
+    """A ring resolved by a chain that MIXES DelayFixed and DelayToPull on one link, in both orders (the shifts do not
+    commute: DelayToPull ignores its argument).  Constant steps, so that DelayToPull(n) shifts by n consumer steps."""
+    unit = rng.choice(UNITS)
+    n = rng.choice([2, 3])
+    steps = [unit * rng.choice([1, 2, 3]) for _ in range(n)]
+    comps = [{"kind": "T", "start": 0, "steps": [steps[k]], "initpull": False, "nout": 1, "inputs": []} for k in range(n)]
+    total = sum(steps)
+    k0 = rng.randrange(n)
+    s0 = steps[k0]
+    npull = rng.choice([1, 2, 3])
+    rest = max(0, total - npull * s0)
+    mode = rng.choice(["exact", "exact", "more", "short"])
+    dfix = {"exact": rest, "more": rest + unit, "short": max(0, rest - unit)}[mode]
+    ch = [["topull", npull, 0], ["fixed", dfix]]
+    if rng.random() < 0.5:
+        ch.reverse()
+    if rng.random() < 0.3:
+        ch.insert(rng.randrange(3), ["pass"])
+    for k in range(n):
+        comps[k]["inputs"].append({"src": [(k - 1) % n, 0], "chain": ch if k == k0 else ([["pass"]] if rng.random() < 0.3 else [])})
+    order = list(range(n))
+    rng.shuffle(order)
+    return {"comps": permute(comps, order), "end": max(steps) * rng.choice([3, 5, 8])}
